@@ -376,3 +376,39 @@ func phiEdgeFailed(phi *ssa.Phi, i int) bool {
 	}
 	return false
 }
+
+// ssaCone: fn, its function literals, and – transitively – the functions the reference tree did not have that they
+// call statically (a new helper is read as part of its callers; the SSA form is built from the trees as written, so
+// the rules that work on it follow such helpers explicitly).
+func (p *Prog) ssaCone(fn *ssa.Function) []*ssa.Function {
+	var out []*ssa.Function
+	seen := map[*ssa.Function]bool{}
+	var add func(f *ssa.Function)
+	add = func(f *ssa.Function) {
+		if f == nil || seen[f] || f.Blocks == nil {
+			return
+		}
+		seen[f] = true
+		out = append(out, f)
+		for _, a := range f.AnonFuncs {
+			add(a)
+		}
+		for _, b := range f.Blocks {
+			for _, ins := range b.Instrs {
+				ci, ok := ins.(ssa.CallInstruction)
+				if !ok {
+					continue
+				}
+				callee := ci.Common().StaticCallee()
+				if callee == nil {
+					continue
+				}
+				if obj, isFn := callee.Object().(*types.Func); isFn && p.newHelpers[obj] {
+					add(callee)
+				}
+			}
+		}
+	}
+	add(fn)
+	return out
+}
